@@ -67,14 +67,17 @@ theorem verifyFlat_mono_ids (key : B) (d : Mac B) (ids ids' : List B) (ta : Bool
   Lemmas.verifyFlat_mono_ids key d ids ids' ta cs hv hsub
 
 /-- [lawful] what the third party issues for the ticket of a caveat made by `NewCaveat3P` is a
-legitimate discharge rooted at that caveat's discharge key, and it learns the caveats to check -/
+legitimate discharge rooted at that caveat's discharge key, and it learns the caveats to check —
+for a third-party key that is an AEAD key, an AEAD nonce and a ticket body within the codec's domain
+(`okKey`, `okNonce`, `okTicketBody`: `True` symbolically; concretely see Props/Concrete.lean) -/
 theorem discharge_from_ticket_is_legit [LawfulCrypto B] (ka : B) (loc : Bytes) (cs : List (Cav B))
-    (rn tn vn rnd : B) (p : Bool) (tails : List B) :
+    (rn tn vn rnd : B) (p : Bool) (tails : List B)
+    (hka : LawfulCrypto.okKey ka) (htn : LawfulCrypto.okNonce tn) (hb : LawfulCrypto.okTicketBody rn cs) :
     ∃ ticket d, newCaveat3P ka loc cs rn tn vn = .new3p loc ticket rn vn ∧
       dischargeTicket ka loc ticket rnd p = .ok (cs, d) ∧ LegitDis rn ticket tails d := by
   refine ⟨sealTicket ka tn rn cs, mint rn (sealTicket ka tn rn cs) loc rnd p, rfl, ?_, .minted loc rnd 1 p⟩
   unfold dischargeTicket
-  rw [LawfulCrypto.openTicket_sealTicket]
+  rw [LawfulCrypto.openTicket_sealTicket ka tn rn cs hka htn hb]
 
 /-- [lawful] `legit_discharge_verifies`: a discharge minted under the discharge key `rn` with the
 ticket as key-id (proof or non-proof, either nonce format), then extended by any `Add` calls —
@@ -167,15 +170,16 @@ theorem legit_firstParty_verifies [LawfulCrypto B] (k : B) (m : Mac B) (hL : Leg
 theorem untrusted_not_refused (kid vk : B) : trustOf ([] : List B) kid vk = some false := rfl
 
 /-- [lawful] … or the third party's own key first in the list: it opens the ticket to the discharge key -/
-theorem trusted_not_refused [LawfulCrypto B] (ka : B) (rest : List B) (tn rn : B) (cs : List (Cav B)) :
+theorem trusted_not_refused [LawfulCrypto B] (ka : B) (rest : List B) (tn rn : B) (cs : List (Cav B))
+    (hka : LawfulCrypto.okKey ka) (htn : LawfulCrypto.okNonce tn) (hb : LawfulCrypto.okTicketBody rn cs) :
     trustOf (ka :: rest) (sealTicket ka tn rn cs) rn = some true :=
-  trustOf_sealed_head ka rest tn rn cs
+  trustOf_sealed_head ka rest tn rn cs hka htn hb
 
 /-! ### order of the first-party caveats -/
 
 /-- each successful `Add` contributes to the verification result its ordinary arguments, in
 argument order, minus those whose encoding is already in the token or earlier in the arguments -/
-theorem firstParty_order_add (m : Mac B) (items : List (AddItem B))
+theorem firstParty_order_add [LawfulCrypto B] (m : Mac B) (items : List (AddItem B))
     (hit : ∀ it ∈ items, LegitItem it) (hok : (add m items).2 = none) :
     (add m items).1.cavs.filter (kept true) =
       m.cavs.filter (kept true) ++ (dedup m.cavs items []).filterMap AddItem.plain? :=
@@ -235,7 +239,7 @@ theorem m1_legit : Legit (atom 0) m1 :=
     simp only [List.mem_cons, List.not_mem_nil, or_false] at hit
     rcases hit with rfl | rfl
     · exact .plain _ rfl
-    · exact .new3p _ _ _ _) rfl
+    · exact .new3p _ _ _ _ trivial) rfl
 
 theorem m2_legit : Legit (atom 0) m2 :=
   .added _ _ (.encoded _ m1_legit) (by
@@ -279,11 +283,11 @@ example : secrets (atom 0) m1 = secrets (atom 0) m0 ++ newSecrets (dedup m0.cavs
     simp only [List.mem_cons, List.not_mem_nil, or_false] at hit
     rcases hit with rfl | rfl
     · exact .plain _ rfl
-    · exact .new3p _ _ _ _) rfl
+    · exact .new3p _ _ _ _ trivial) rfl
 -- discharges: the third party's answer to the ticket; verification of the bound discharge
 example : dischargeTicket (atom 5) [9] ticket (atom 14) true = .ok ([.isUser 3], d0) := by rfl
 example := discharge_from_ticket_is_legit (atom 5) [9] [.isUser 3] (atom 11) (atom 12) (atom 13) (atom 14) true
-  (tailsOf (atom 0) m2)
+  (tailsOf (atom 0) m2) trivial trivial trivial
 example : verifyFlat (atom 11) d2 (offered (atom 0) m2) true = .ok [.flyioUserID 5, .confineUser 5] ∧ d2.nonce.kid = ticket :=
   legit_discharge_verifies (atom 11) ticket (tailsOf (atom 0) m2) (offered (atom 0) m2) d2 true d2_legit (by rfl)
     (fun t ht => List.mem_map.mpr ⟨t, ht, rfl⟩)
@@ -321,7 +325,7 @@ theorem mp_hist : PlainHist (atom 0) mp ([] ++ [.isUser 7, .action 1] ++ [.actio
 example : mp.cavs = [.isUser 7, .action 1, .isUser 8] ∧
     verify (atom 0) mp [] (fun _ => []) = .ok [.isUser 7, .action 1, .isUser 8] :=
   firstParty_order (atom 0) mp _ mp_hist [] _
-example := trusted_not_refused (atom 5) [] (atom 12) (atom 11) [Cav.isUser 3]
+example := trusted_not_refused (atom 5) [] (atom 12) (atom 11) [Cav.isUser 3] trivial trivial trivial
 
 /-- in the symbolic instance the trust loop never refuses a discharge for an honestly sealed
 ticket, whatever keys are trusted for its location: the hypothesis `trustOf … = some b` of
@@ -333,7 +337,7 @@ theorem sym_trust_never_refuses (keys : List Term) (ka tn rn : Term) (cs : List 
   | cons k' rest ih =>
     by_cases h : ka = k'
     · subst h
-      exact ⟨true, trusted_not_refused ka rest tn rn cs⟩
+      exact ⟨true, trusted_not_refused ka rest tn rn cs trivial trivial trivial⟩
     · obtain ⟨b, hb⟩ := ih
       refine ⟨b, ?_⟩
       simp only [trustOf, Crypto.openTicket, Crypto.sealTicket, openTicketT, h, ↓reduceIte]
